@@ -221,6 +221,7 @@ enum {
   X(void, jv_gt_unmarshal, (int view, void* out, const void* buf)) \
   /* ---- wkdibe API, both views ---- */ \
   X(void, jv_wk_scalar_hash_reduce, (int view, void* x)) \
+  X(int, jv_early_probe_check, (void)) \
   X(void, jv_wk_random_zpstar, (int view, void* x, jv_rand_fn rnd)) \
   X(void, jv_wk_random_zpstar_powers, (uint64_t* c4, void* x, jv_rand_fn rnd)) /* C++ only overload */ \
   X(void, jv_wk_random_g1, (int view, void* out, jv_rand_fn rnd)) \
